@@ -1,7 +1,7 @@
 (* C11 — property theorems.  Nothing but statements, `exact`, Print Assumptions.
    `reach g` : g is reachable from the initial state by ANY sequence of labels, i.e. under every
    interleaving of the accept loop, the handlers, Shutdown, Close, clients, origin and context. *)
-From G11 Require Import Shutdown Gauge ShutdownCheck ShutdownProofs ShutdownAccepts ShutdownTrace ShutdownRun ShutdownTermination ShutdownProgress ShutdownObligations.
+From G11 Require Import Shutdown Gauge ShutdownCheck ShutdownProofs ShutdownAccepts ShutdownTrace ShutdownRun ShutdownTermination ShutdownProgress ShutdownQuiescent ShutdownObligations.
 Open Scope Z_scope.
 
 (* Shutdown decides "drained" (and then returns nil) only in a state where the counter is zero and
@@ -123,6 +123,18 @@ Theorem T11_handlers_terminate : forall g,
     count handler_step ls <= max_rank * (Z.of_nat (length (conns g)) + 1).
 Proof. exact handlers_terminate. Qed.
 Print Assumptions T11_handlers_terminate.
+
+(* ... and where such a run ends: in ANY reachable state in which no handler step is possible, every
+   handler has finished or is waiting for connsMu (before it is counted, or after its decrement), and the
+   counter is zero.  With T11_handlers_terminate: once closing is set, every run in which a handler that
+   can move eventually does move reaches the counter value zero after at most 41 x (connections + 1) handler
+   steps. *)
+Theorem T11_quiescent_counter_zero : forall g,
+  reach g -> (forall l, handler_step l = true -> stepf g l = None) ->
+  cnt g = 0 /\
+  forall i c, getc g i = Some c -> pc c = CDone \/ (mu g <> None /\ (pc c = CAcc \/ pc c = CDec)).
+Proof. exact quiescent_counter_zero. Qed.
+Print Assumptions T11_quiescent_counter_zero.
 
 (* ... and the drain itself can always succeed: from every reachable state in which Shutdown is
    polling (holding connsMu), every registered handler can run up to its decrement without the lock,
